@@ -229,7 +229,7 @@ impl<'r> TextGen<'r> {
         match self.rng.below(if ordered { 4 } else { 12 }) {
             0 => format!("{}", self.rng.range(-5, 9)),
             1 => format!("{}.{}", self.rng.range(-3, 9), self.rng.range(0, 99)),
-            2 => "2024-01-02T03:04:05+00:00".to_string(),
+            2 => (*self.rng.pick(&["2024-01-02T03:04:05+00:00", "2024-02-29T23:59:59.250+01:00", "1999-12-31T00:00:00.000001-11:30", "2038-01-19T03:14:08Z", "2024-01-02T03:04:05.5Z"])).to_string(),
             3 => format!("{}", self.rng.range(0, 3)),
             4 => "null".into(),
             5 => "any".into(),
@@ -1078,7 +1078,16 @@ fn built_constraint(rng: &mut Rng, store: &'static AnnotationStore, depth: usize
             10 => DataOperator::LessThanFloat(*rng.pick(&[4.25, 4.0])),
             11 => DataOperator::Not(Box::new(DataOperator::Equals("noun".into()))),
             12 => DataOperator::Not(Box::new(DataOperator::EqualsInt(2))),
-            13 => DataOperator::AfterDatetime(chrono::DateTime::parse_from_rfc3339("2024-01-02T03:04:05+01:00").unwrap()),
+            13 => {
+                let d = chrono::DateTime::parse_from_rfc3339(*rng.pick(&["2024-01-02T03:04:05+01:00", "2024-02-29T23:59:59.250+01:00", "1999-12-31T00:00:00.000001-11:30", "2038-01-19T03:14:08+00:00"])).unwrap();
+                match rng.below(5) {
+                    0 => DataOperator::ExactDatetime(d),
+                    1 => DataOperator::BeforeDatetime(d),
+                    2 => DataOperator::AtOrAfterDatetime(d),
+                    3 => DataOperator::AtOrBeforeDatetime(d),
+                    _ => DataOperator::AfterDatetime(d),
+                }
+            }
             14 => DataOperator::Or(vec![DataOperator::Equals("noun".into()), DataOperator::Equals("verb".into())]),
             _ => DataOperator::GreaterThanOrEqual(0),
         }
